@@ -74,9 +74,9 @@ Cas == /\ Ev.e = "cas" /\ Ev.p = holder
                Same(<<exp, replyLost, casAfter>>)
        /\ Same(<<held, holder, alive, cexp, unlockedAt, wacq, kind, ttl>>)
 
-\* renewal calls of a caller that is not (any more) the one under observation: a dead process's calls
-\* never reach the store
-CasOther == /\ Ev.e = "cas" /\ Ev.p # holder /\ Ev.res = "dead"
+\* renewal calls of a caller that is not (any more) the one under observation (a dead process's calls never
+\* reach the store; a party that acquired but is not observed as holder renews its own record)
+CasOther == /\ Ev.e = "cas" /\ Ev.p # holder
             /\ Same(<<held, holder, alive, exp, cexp, replyLost, unlockedAt, casAfter, wacq, kind, ttl>>)
 
 Del == /\ Ev.e = "del" /\ Same(<<held, holder, alive, exp, cexp, replyLost, unlockedAt, casAfter, wacq, kind, ttl>>)
@@ -107,13 +107,19 @@ WAcq == /\ Ev.e = "wacq"
         /\ wacq' = TRUE
         /\ Same(<<held, holder, alive, exp, cexp, replyLost, unlockedAt, casAfter, kind, ttl>>)
 
+\* after everything was released the lock is free: the contender's TryLock succeeds (no record was left behind
+\* or kept alive by a renewal of a finished tenure).  A failed re-acquisition through the released Locker
+\* (reacqfail) is never consumable.
+FreeTry == /\ Ev.e = "freetry" /\ Ev.ok
+           /\ Same(<<held, holder, alive, exp, cexp, replyLost, unlockedAt, casAfter, wacq, kind, ttl>>)
+
 \* the waiter giving up after the holder died is (b) violated: never consumable
 End == /\ Ev.e = "end"
        /\ (kind = "death") => wacq
        /\ Same(<<held, holder, alive, exp, cexp, replyLost, unlockedAt, casAfter, wacq, kind, ttl>>)
 
 Next == /\ l <= Len(Trace) /\ l' = l + 1
-        /\ \/ Reset \/ Acq \/ Create \/ Cas \/ CasOther \/ Del \/ Probe \/ Try \/ Rel \/ Unlocked \/ Die \/ WAcq \/ End
+        /\ \/ Reset \/ Acq \/ Create \/ Cas \/ CasOther \/ Del \/ Probe \/ Try \/ FreeTry \/ Rel \/ Unlocked \/ Die \/ WAcq \/ End
 
 Spec == Init /\ [][Next]_vars
 Accepted == AcceptByDiameter
